@@ -81,6 +81,7 @@ func ServeRegistered(kind int) any              { panic("intrinsic") }
 func BlockOK()                                 { panic("intrinsic") }
 func NondetSelect()                            { panic("intrinsic") }
 func OnSelect(f func())                        { panic("intrinsic") }
+func OnBlockingSelect(f func())                { panic("intrinsic") }
 func FilesRemoved() int                        { panic("intrinsic") }
 func FileRemoved(i int) string                 { panic("intrinsic") }
 func ServeRegistersBackground(fn any) int      { panic("intrinsic") }
